@@ -1,11 +1,11 @@
 """C27 Stack and PriorityQueue follow their reference models.
 
 Domain: operation scripts over `Stack[T, n]` / `PriorityQueue[T, n]` (T = int or tuple[int, bool],
-n = 1..6): push / pop / peek / len in any order that respects capacity and emptiness, followed by
+n = 1..6, and 8/10/12 for about a fifth of the scripts): push / pop / peek / len in any order that respects capacity and emptiness, followed by
 a final phase (drain by pops + discard_empty, drain by `for`-iteration, or leave the rest to be
 dropped).  Every script is rendered as a straight-line `@guppy` function in the owned/moved style
 of the repo's tests (`c = c.push(x)`, `x, c = c.pop()`) that reports every observation through
-`result`; 12 scripts share one program.  Boundary scripts end with one operation that violates
+`result`; 24 scripts share one program.  Boundary scripts end with one operation that violates
 capacity / emptiness, followed by a sentinel `result`; they are built one per program.
 
 Oracle (written from the property statement, not from the heap code):
@@ -26,7 +26,7 @@ sys.path.insert(0, os.path.dirname(os.path.dirname(os.path.abspath(__file__))))
 from vlib import harness  # noqa: E402
 
 PROP = "C27"
-BATCH = 12  # scripts per compiled program (the selene build dominates and is almost size-independent)
+BATCH = 24  # scripts per compiled program (the selene build dominates and is almost size-independent)
 TYPES = {"int": "int", "tup": "tuple[int, bool]"}
 CLS = {"stack": "Stack", "pq": "PriorityQueue"}
 EMPTY = {"stack": "empty_stack", "pq": "empty_priority_queue"}
@@ -335,6 +335,8 @@ def labels_of(s):
         labs.append("has-peek")
     if s["final"] == "bad":
         labs.append(f"bad:{s['coll']}.{s['bad'][0]}")
+    if s["cap"] > 12:
+        labs.append("deep-heap")
     return nt, labs
 
 
@@ -355,15 +357,23 @@ def strategies(peek_ok):
     from hypothesis import strategies as st
 
     @st.composite
-    def script(draw, bad=False):
-        coll = draw(st.sampled_from(["stack", "pq", "pq"]))
+    def script(draw, bad=False, coll=None, kind=None):
+        coll = coll or draw(st.sampled_from(["stack", "pq", "pq"]))
         ty = draw(st.sampled_from(["int", "int", "tup"]))
-        cap = draw(st.sampled_from([1, 2, 3, 4, 4, 5, 5, 5, 6, 6, 6]))
-        nops = draw(st.integers(0, 6)) if bad else draw(
-            st.one_of(st.integers(1, 5), st.integers(6, 16), st.integers(6, 16), st.integers(8, 16)))
+        # capacities 1..6, plus 8/10/12 for about a fifth of the scripts: index arithmetic in a binary heap
+        # (parent/child positions) only matters from the third level on, i.e. beyond 6 entries
+        cap = draw(st.sampled_from([1, 2, 3, 4, 4, 5, 5, 6, 6, 6, 8, 10, 12]))
+        # "deep" class (about 1 script in 12, PriorityQueue only): capacity 16/24, mostly pushes, then drained -
+        # a wrong parent/child index that is masked in small heaps shows up here
+        deep = (not bad) and coll == "pq" and draw(st.integers(0, 7)) == 0
+        if deep:
+            cap = draw(st.sampled_from([16, 24]))
+        hi = 16 if cap <= 6 else 28 if cap <= 12 else 44
+        nops = draw(st.integers(0, 6)) if bad else draw(st.integers(cap, hi)) if deep else draw(
+            st.one_of(st.integers(1, 5), st.integers(6, hi), st.integers(6, hi), st.integers(8, hi), st.integers(hi // 2, hi)))
         # values / priorities from small ranges so that ties (and duplicate entries) are common
-        vals = st.integers(-2, 9)
-        prios = st.sampled_from([-1, 0, 0, 1, 1, 1, 2, 3])
+        vals = st.integers(-1, 5)
+        prios = st.integers(-2, 8) if deep else st.sampled_from([-1, 0, 0, 1, 1, 1, 2, 2, 3])
         ops = []
         n = 0
 
@@ -374,7 +384,7 @@ def strategies(peek_ok):
         for _ in range(nops):
             c = draw(st.integers(0, 9))
             # weights: push 5 (6 while less than half full), pop 3, peek 1, len 1 (restricted to what is valid)
-            if c < 5 or (c == 9 and 2 * n < cap):
+            if c < 5 or (c == 9 and 2 * n < cap) or (deep and c < 8 and n < cap - 1):
                 want = "push"
             elif c < 8:
                 want = "pop"
@@ -398,9 +408,9 @@ def strategies(peek_ok):
                 ops.append([want])
         s = {"coll": coll, "ty": ty, "cap": cap, "ops": ops}
         if not bad:
-            s["final"] = draw(st.sampled_from(["drain", "drain", "iter", "leave"]))
+            s["final"] = draw(st.sampled_from(["drain", "iter"] if deep else ["drain", "drain", "iter", "leave"]))
             return s
-        kind = draw(st.sampled_from(["push", "pop"] + (["peek"] if peek_ok else [])))
+        kind = kind or draw(st.sampled_from(["push", "pop"] + (["peek"] if peek_ok else [])))
         # steer the valid part to the boundary
         if kind == "push":
             while n < cap:
@@ -418,8 +428,11 @@ def strategies(peek_ok):
         return s
 
     batch = st.lists(script(), min_size=BATCH, max_size=BATCH).map(lambda x: ("batch", x))
-    one_bad = script(bad=True).map(lambda x: ("bad", [x]))
-    return script, batch, one_bad
+    # one boundary script per (collection, operation) class, so that every class is exercised even when
+    # only a handful of (one-program-each) boundary cases fit into the budget
+    classes = [(c, k) for c in ("stack", "pq") for k in ["push", "pop"] + (["peek"] if peek_ok else [])]
+    bad_set = st.tuples(*[script(bad=True, coll=c, kind=k) for c, k in classes]).map(lambda x: ("badset", list(x)))
+    return script, batch, bad_set
 
 
 PEEK_PROBE = {"coll": "stack", "ty": "int", "cap": 2, "ops": [["push", 4, 0], ["peek"]], "final": "leave"}
@@ -448,7 +461,7 @@ def worker(ctx):
     if not peek_ok:
         ctx.exclude("peek ops not generated: not executable on this toolchain (compile+validate of the probe only)")
 
-    script, batch, one_bad = strategies(peek_ok)
+    script, batch, bad_set = strategies(peek_ok)
     seen_buckets = {}
 
     def record(s, r, note=""):
@@ -496,13 +509,25 @@ def worker(ctx):
         if kind == "batch" and all(len(s["ops"]) <= 1 for s in scripts):
             ctx.exclude("degenerate batch (Hypothesis' minimal example: every script <= 1 op) not built")
             return
+        if kind == "badset":
+            if all(len(s["ops"]) <= 2 for s in scripts):
+                ctx.exclude("degenerate boundary set (Hypothesis' minimal example) not built")
+                return
+            for s in scripts:  # a panicking program reports nothing after the panic: one program each
+                eval_program([s])
+            return
         eval_program(scripts)
 
-    # boundary programs first (cheap, one script each), then the batches
-    harness.hyp_search(ctx, one_bad, body, max_examples=ctx.params["bad"], chunk=ctx.params["bad"],
-                       time_frac=0.3, extra_seed="bad")
-    harness.hyp_search(ctx, batch, body, max_examples=ctx.params["batches"], chunk=ctx.params["batches"],
-                       time_frac=0.8, extra_seed="batch")
+    # some batches, then the boundary sets (one script per class, one program per script), then the
+    # remaining batches; the time fractions are only a safety net on an overloaded machine
+    nb = ctx.params["batches"]
+    first = min(nb, 3)
+    harness.hyp_search(ctx, batch, body, max_examples=first, chunk=first, time_frac=0.45, extra_seed="batch0")
+    harness.hyp_search(ctx, bad_set, body, max_examples=ctx.params["badsets"], chunk=ctx.params["badsets"],
+                       time_frac=0.7, extra_seed="bad")
+    if nb > first:
+        harness.hyp_search(ctx, batch, body, max_examples=nb - first, chunk=nb - first, time_frac=0.85,
+                           extra_seed="batch1")
 
     # minimise each new bucket (capped)
     for bucket, s0 in list(seen_buckets.items())[:3]:
@@ -525,10 +550,10 @@ def worker(ctx):
 SPEC = harness.Spec(
     PROP, worker, replay,
     rule=("Hypothesis draws operation scripts (coll in {Stack, PriorityQueue}, T in {int, tuple[int,bool]}, "
-          "capacity 1..6, up to 16 ops push/pop/peek/len valid by construction, values -2..9 and priorities "
-          "from {-1,0,0,1,1,1,2,3} so ties are common, final phase drain/iter/leave); 12 scripts per compiled "
-          "program, each boundary script (last op pushes on full / pops or peeks on empty + sentinel) in a "
-          "program of its own. non-trivial = script with >= 6 ops, >= 1 tie (two equal priorities - for a "
+          "capacity 1..6 (8/10/12 for about a fifth; 16/24 mostly-push-then-drain 'deep' PriorityQueue scripts about 1 in 12), up to 16 (28; 44) ops push/pop/peek/len valid by construction, values -1..5 and priorities "
+          "from {-1,0,0,1,1,1,2,2,3} so ties are common, final phase drain/iter/leave); 24 scripts per compiled "
+          "program; boundary scripts (valid prefix, `len`, then push on full / pop or peek on empty, sentinel) are "
+          "drawn as one script per (collection, operation) class and built one program each. non-trivial = script with >= 6 ops, >= 1 tie (two equal priorities - for a "
           "stack two equal values - stored at the same time) and >= 1 pop with a push before and after it; "
           "distinct = distinct script"),
     assumptions=[
@@ -540,9 +565,9 @@ SPEC = harness.Spec(
         "operation, and a message naming `<Class>.<op>` (the collection's own guard); an incidental low-level "
         "panic such as `Index out of bounds` reached because the guard is missing is reported",
     ],
-    shards={"quick": 16, "thorough": 16}, budget_s={"quick": 90, "thorough": 800},
-    params={"quick": {"batches": 9, "bad": 6}, "thorough": {"batches": 110, "bad": 70}},
-    min_nontrivial=30,
+    shards={"quick": 16, "thorough": 16}, budget_s={"quick": 100, "thorough": 800},
+    params={"quick": {"batches": 6, "badsets": 2}, "thorough": {"batches": 60, "badsets": 18}},
+    min_nontrivial=20,
 )
 
 if __name__ == "__main__":
